@@ -112,9 +112,9 @@ def symmat_ens(S0, S, a, res):
     sv, _ = seq(S0, a['valij'])
     m = res.t
     t = fresh('t', I)
-    return [('fresh', z3.And(m >= S0.alloc, m < S.alloc, S.cls(m) == tag('SymMat'))),
-            ('content', z3.And(sm(S, 'dim', m) == a['dim'].t, sm(S, 'n', m) == n,
-                               z3.ForAll([t], z3.Implies(z3.And(t >= 0, t < n), z3.And(sm(S, 'subi', m)[t] == si[t], sm(S, 'subj', m)[t] == sj[t], sm(S, 'val', m)[t] == sv[t])))))]
+    return [('fresh', z3.And(m >= S0.alloc, m < S.alloc, S.cls(m) == tag('SymMat'), S.alloc == S0.alloc + 1)),
+            # (ghost representation: the triplet arrays as given; positions >= n are never read)
+            ('content', z3.And(sm(S, 'dim', m) == a['dim'].t, sm(S, 'n', m) == n, sm(S, 'subi', m) == si, sm(S, 'subj', m) == sj, sm(S, 'val', m) == sv))]
 
 
 SEQ_I = {'subi': [TList(TInt)], 'subj': [TList(TInt)], 'valij': [TList(TReal)]}
@@ -426,3 +426,163 @@ contract(
     array_sorts={'f:SymMat.subi': z3.ArraySort(I, IA_I), 'f:SymMat.subj': z3.ArraySort(I, IA_I), 'f:SymMat.val': z3.ArraySort(I, IA_R)},
 )
 REG.by_key[MW + 'prepare_heuristic'].no_runtime = 'needs MOSEK; covered by the bounded differential check on the MOSEK stand-in (C11)'
+
+
+# ======================================================================================================================
+# MosekWrapper.send_lmi_constraint_to_solver: one new bar-variable Z (size n), and for each entry (i, j) one equality row
+#     <A(e_ij), G> + a(e_ij) . F - <E_ij, Z> = -alpha(e_ij)          E_ij = unit matrix at (max, min), weight -1 on the diagonal, -1/2 off it
+# ridx(n1, i, j): index of cell (i, j) in row-major order (spec function defined by recursion; its closed form i*n1 + j is not needed)
+from .wrappers import mentry, sh0, sh1, entries_ok
+ridx = z3.Function('ridx', I, I, I, I)
+MT = TRef('PSDMatrix')
+
+
+def ridx_defs(n1, n0):
+    i, j = fresh('i', I), fresh('j', I)
+    return [ridx(n1, 0, 0) == 0,
+            z3.ForAll([i, j], z3.Implies(z3.And(i >= 0, i < n0, j >= 0, j < n1), ridx(n1, i, j + 1) == ridx(n1, i, j) + 1), patterns=[ridx(n1, i, j + 1)]),
+            z3.ForAll([i], z3.Implies(z3.And(i >= 0, i < n0), ridx(n1, i + 1, 0) == ridx(n1, i, n1)), patterns=[ridx(n1, i + 1, 0)])]
+
+
+def lmi_row_parts(S0, H, tk, r, e, i, j, zvar, size):
+    """row r of the task couples entry (i, j) of the new bar-variable with the expression e (as separately provable parts)"""
+    A, Bm = H.A('mk:rowA')[tk][r], H.A('mk:rowB')[tk][r]
+    row = H.A('mk:rowa')[tk][r]
+    d = S0.dd('Expression', e)
+    alpha = S0.val0(d, One)
+    col = fresh('col', I)
+    NE = S0.g('Expression.counter')
+    facts = sparse_facts(S0, e, S0.dom(d), z3.IntVal(0), z3.K(I, z3.IntVal(0)), z3.K(I, z3.RealVal(0)), sm(H, 'n', A), sm(H, 'subi', A), sm(H, 'subj', A), sm(H, 'val', A), alpha)
+    g = {lab: f for lab, f in facts if lab.startswith('G.')}
+    return {
+        'gram.matrix': z3.And(A >= S0.alloc, A < H.alloc, H.cls(A) == tag('SymMat'), sm(H, 'dim', A) == S0.g('Point.counter'), sm(H, 'n', A) >= 0),
+        'gram.entries': g['G.entries'], 'gram.nodup': g['G.nodup'], 'gram.complete': g['G.complete'],
+        'psd_entry': z3.And(Bm >= S0.alloc, Bm < H.alloc, H.cls(Bm) == tag('SymMat'), sm(H, 'dim', Bm) == size, sm(H, 'n', Bm) == 1,
+                            sm(H, 'subi', Bm)[0] == z3.If(i >= j, i, j), sm(H, 'subj', Bm)[0] == z3.If(i >= j, j, i),
+                            sm(H, 'val', Bm)[0] == z3.If(i == j, z3.RealVal(-1), z3.RealVal(-1) / 2), H.A('mk:rowBvar')[tk][r] == zvar),
+        'linear': z3.And(z3.ForAll([col], z3.Implies(z3.And(col >= 0, col < NE), row[col] == S0.val0(d, leafE(S0, col)))), row[NE] == 0),
+        'bound': z3.And(H.A('mk:bk')[tk][r] == BK['fx'], H.A('mk:bl')[tk][r] == -alpha, H.A('mk:bu')[tk][r] == -alpha)}
+
+
+def lmi_row(S0, H, tk, r, e, i, j, zvar, size):
+    return z3.And(*lmi_row_parts(S0, H, tk, r, e, i, j, zvar, size).values())
+
+
+def mlmi_requires(S, a):
+    w, m = a['self'].t, a['psd_matrix'].t
+    tk = S.fld('MosekWrapper', 'task', w)
+    T = S.fld('Wrapper', '_list_of_constraints_sent_to_solver', w)
+    regs = [S.g('Point.list_of_leaf_points'), S.g('Expression.list_of_leaf_expressions')]
+    return [('square', z3.And(sh0(S, m) >= 0, sh1(S, m) == sh0(S, m))), ('entries', entries_ok(S, m)), ('reg_expr', Reg(S, 'Expression')), ('reg_point', Reg(S, 'Point')),
+            ('task', z3.And(tf(S, 'numcon', tk) >= 0, task_ready(S, tk))),
+            # the wrapper's count of PSD variables is the task's (established by set_main_variables, kept by this function)
+            ('psd_count_is_numbarvar', S.fld('MosekWrapper', '_nb_pep_SDPconstraints_in_mosek', w) == tf(S, 'numbarvar', tk)),
+            ('lists_distinct', z3.And(*[T != r for r in regs]))]
+
+
+def mlmi_ens(S0, S, a, res):
+    w, m = a['self'].t, a['psd_matrix'].t
+    tk = S0.fld('MosekWrapper', 'task', w)
+    T = S0.fld('Wrapper', '_list_of_constraints_sent_to_solver', w)
+    r0, z0 = tf(S0, 'numcon', tk), tf(S0, 'numbarvar', tk)
+    n0, n1 = sh0(S0, m), sh1(S0, m)
+    i, j, q = fresh('i', I), fresh('j', I), fresh('q', I)
+    return [('tracked_once', appended_list(S0, S, T, m), 'property'),
+            ('one_new_psd_variable', z3.And(tf(S, 'numbarvar', tk) == z0 + 1, S.A('mk:bardim')[tk][z0] == n0,
+                                            z3.ForAll([q], z3.Implies(z3.And(q >= 0, q < z0), S.A('mk:bardim')[tk][q] == S0.A('mk:bardim')[tk][q])),
+                                            S.fld('MosekWrapper', '_nb_pep_SDPconstraints_in_mosek', w) == z0 + 1), 'property'),
+            ('one_row_per_entry', z3.And(tf(S, 'numcon', tk) == r0 + ridx(n1, n0, 0), z3.ForAll([i, j], z3.Implies(z3.And(i >= 0, i < n0, j >= 0, j < n1), z3.And(
+                ridx(n1, i, j) >= 0, ridx(n1, i, j) < ridx(n1, n0, 0), lmi_row(S0, S, tk, r0 + ridx(n1, i, j), mentry(m, i, j), i, j, z0, n0))))), 'property'),
+            ('earlier_rows_and_variables_untouched', z3.And(
+                z3.ForAll([q], z3.Implies(z3.And(q >= 0, q < r0), z3.And(*[S.A(nm)[tk][q] == S0.A(nm)[tk][q] for nm in ROWS]))),
+                S.A('mk:vbk')[tk] == S0.A('mk:vbk')[tk], S.A('mk:c')[tk] == S0.A('mk:c')[tk], tf(S, 'numvar', tk) == tf(S0, 'numvar', tk),
+                tf(S, 'objsense', tk) == tf(S0, 'objsense', tk)), 'property')]
+
+
+def mlmi_common(L_, i_now, j_now):
+    S0, H, a = L_.H0, L_.H, L_.args
+    w, m = a['self'].t, a['psd_matrix'].t
+    tk = S0.fld('MosekWrapper', 'task', w)
+    r0, z0 = tf(S0, 'numcon', tk), tf(S0, 'numbarvar', tk)
+    n0, n1 = sh0(S0, m), sh1(S0, m)
+    i, j, q = fresh('i', I), fresh('j', I), fresh('q', I)
+    before = lambda i_, j_: z3.Or(i_ < i_now, z3.And(i_ == i_now, j_ < j_now))
+    cur = ridx(n1, i_now, j_now)
+    return [('count', z3.And(tf(H, 'numcon', tk) == r0 + cur, cur >= 0)),
+            ('bar_variable', z3.And(tf(H, 'numbarvar', tk) == z0 + 1, H.A('mk:bardim')[tk][z0] == n0, H.A('mk:bardim')[tk][0] == S0.g('Point.counter'),
+                                    z3.ForAll([q], z3.Implies(z3.And(q >= 0, q < z0), H.A('mk:bardim')[tk][q] == S0.A('mk:bardim')[tk][q])),
+                                    H.fld('MosekWrapper', '_nb_pep_SDPconstraints_in_mosek', w) == z0 + 1, H.fld('MosekWrapper', 'task', w) == tk,
+                                    tf(H, 'numvar', tk) == tf(S0, 'numvar', tk))),
+            ('rows.index', z3.ForAll([i, j], z3.Implies(z3.And(i >= 0, i < n0, j >= 0, j < n1, before(i, j)), z3.And(ridx(n1, i, j) >= 0, ridx(n1, i, j) < cur))))] + [
+            ('rows.' + lab, z3.ForAll([i, j], z3.Implies(z3.And(i >= 0, i < n0, j >= 0, j < n1, before(i, j)), f)),
+             ['cut.old_rows.' + lab, 'cut.new_row.' + lab, 'inv.rows.index'])
+            for lab, f in lmi_row_parts(S0, H, tk, r0 + ridx(n1, i, j), mentry(m, i, j), i, j, z0, n0).items()] + [
+
+            ('earlier_rows_untouched', z3.ForAll([q], z3.Implies(z3.And(q >= 0, q < r0), z3.And(*[H.A(nm)[tk][q] == S0.A(nm)[tk][q] for nm in ROWS])))),
+            ('objective_untouched', z3.And(H.A('mk:vbk')[tk] == S0.A('mk:vbk')[tk], H.A('mk:c')[tk] == S0.A('mk:c')[tk], tf(H, 'objsense', tk) == tf(S0, 'objsense', tk))),
+            ('no_new_leaf', no_new_leaf(S0, H), ['inv.no_new_leaf', 'ens.expression_to_sparse_matrices.only_lists_allocated', 'frame.expression_to_sparse_matrices.cls',
+                                                 'frame.MosekTask.appendsparsesymmat.cls']),
+            ('registries_same', z3.And(*[z3.And(H.A('eltI')[S0.g(gn)] == S0.A('eltI')[S0.g(gn)], H.len(S0.g(gn)) == S0.len(S0.g(gn)))
+                                        for gn in ('Point.list_of_leaf_points', 'Expression.list_of_leaf_expressions')]))]
+
+
+def mlmi_outer(L_):
+    return mlmi_common(L_, L_.i, z3.IntVal(0))
+
+
+def mlmi_inner(L_):
+    return mlmi_common(L_, L_.outer(1)['i'], L_.i)
+
+
+def mlmi_lemmas_inner(L_):
+    n1 = sh1(L_.H0, L_.args['psd_matrix'].t)
+    return [ridx(n1, L_.outer(1)['i'], L_.i + 1) == ridx(n1, L_.outer(1)['i'], L_.i) + 1]
+
+
+def mlmi_lemmas_outer(L_):
+    n1 = sh1(L_.H0, L_.args['psd_matrix'].t)
+    return [ridx(n1, L_.i + 1, 0) == ridx(n1, L_.i, n1)]
+
+
+def mlmi_cuts(L_):
+    """the row just written, stated for that one row (no quantifier over rows)"""
+    S0, H, a = L_.H0, L_.H, L_.args
+    w, m = a['self'].t, a['psd_matrix'].t
+    tk = S0.fld('MosekWrapper', 'task', w)
+    r0, z0 = tf(S0, 'numcon', tk), tf(S0, 'numbarvar', tk)
+    n0, n1 = sh0(S0, m), sh1(S0, m)
+    i_now, j_now = L_.outer(1)['i'], L_.i
+    parts = lmi_row_parts(S0, H, tk, r0 + ridx(n1, i_now, j_now), mentry(m, i_now, j_now), i_now, j_now, z0, n0)
+    A = H.A('mk:rowA')[tk][r0 + ridx(n1, i_now, j_now)]
+    Ai, Aj, Av = L_.var('A_i', 0), L_.var('A_j', 1), L_.var('A_val', 2)
+    Hs = L_.H_start
+    q = fresh('q', I)
+    cur = ridx(n1, i_now, j_now)
+    kept = [('older_rows_kept', z3.ForAll([q], z3.Implies(z3.And(q >= 0, q < r0 + cur), z3.And(*[H.A(nm)[tk][q] == Hs.A(nm)[tk][q] for nm in ROWS])))),
+            ('older_matrices_kept', z3.ForAll([q], z3.Implies(z3.And(q >= 0, q < Hs.alloc), z3.And(
+                H.cls(q) == Hs.cls(q), *[sm(H, fl, q) == sm(Hs, fl, q) for fl in ('dim', 'n', 'subi', 'subj', 'val')])))),
+            ('allocation_grows', H.alloc >= Hs.alloc)]
+    first = kept + [('new_row.matrix_is_the_translation', z3.And(sm(H, 'subi', A) == Ai.t, sm(H, 'subj', A) == Aj.t, sm(H, 'val', A) == Av.t, sm(H, 'n', A) == Ai.items[0]))]
+    i, j = fresh('i', I), fresh('j', I)
+    before = lambda i_, j_: z3.Or(i_ < i_now, z3.And(i_ == i_now, j_ < j_now))
+    old_rows = [('old_rows.' + lab, z3.ForAll([i, j], z3.Implies(z3.And(i >= 0, i < n0, j >= 0, j < n1, before(i, j)), f)),
+                 ['inv.rows.' + lab, 'inv.rows.index', 'cut.older_rows_kept', 'cut.older_matrices_kept', 'inv.registries_same'])
+                for lab, f in lmi_row_parts(S0, H, tk, r0 + ridx(n1, i, j), mentry(m, i, j), i, j, z0, n0).items()]
+    return first + [('new_row.' + lab, f) for lab, f in parts.items()] + old_rows
+
+
+MLMI_MODS = lambda L_: (lambda tk: dict({nm: only_task(tk) for nm in MK}, **{'f:MosekTask.numcon': only_task(tk)}))(L_.H0.fld('MosekWrapper', 'task', L_.args['self'].t))
+
+contract(
+    MW + 'send_lmi_constraint_to_solver', [('self', MWT), ('psd_counter', TInt), ('psd_matrix', MT)], returns=TNone,
+    requires=mlmi_requires, ensures=mlmi_ens,
+    defs=lambda S, a: ridx_defs(sh1(S, a['psd_matrix'].t), sh0(S, a['psd_matrix'].t)),
+    modifies=lambda S, a: (lambda T, tk: dict({'len': lambda r: r == T, 'eltI': lambda r: r == T, 'f:MosekWrapper._nb_pep_SDPconstraints_in_mosek': lambda r: r == a['self'].t,
+                                               'f:MosekTask.numcon': only_task(tk), 'f:MosekTask.numbarvar': only_task(tk)}, **{nm: only_task(tk) for nm in MK}))(
+        S.fld('Wrapper', '_list_of_constraints_sent_to_solver', a['self'].t), S.fld('MosekWrapper', 'task', a['self'].t)),
+    touches=lambda S, a: ['len', 'eltI', 'eltR', 'cls', 'f:MosekWrapper._nb_pep_SDPconstraints_in_mosek', 'f:MosekTask.numcon', 'f:MosekTask.numbarvar', 'f:SymMat.dim', 'f:SymMat.n',
+                          'f:SymMat.subi', 'f:SymMat.subj', 'f:SymMat.val'] + MK,
+    array_sorts={'f:SymMat.subi': z3.ArraySort(I, IA_I), 'f:SymMat.subj': z3.ArraySort(I, IA_I), 'f:SymMat.val': z3.ArraySort(I, IA_R)},
+    loops={1: dict(inv=mlmi_outer, lemmas=mlmi_lemmas_outer, mods=MLMI_MODS), 2: dict(inv=mlmi_inner, lemmas=mlmi_lemmas_inner, mods=MLMI_MODS, cuts=mlmi_cuts)},
+)
+REG.by_key[MW + 'send_lmi_constraint_to_solver'].no_runtime = 'needs MOSEK; covered by the bounded differential check on the MOSEK stand-in (C11)'
